@@ -192,6 +192,35 @@ var Slots = []Slot{
 			}
 			return l.When().Expression(), true
 		}},
+	// what the statement writes itself wins over what its typedef would hand down
+	{Name: "leaf-units-over-typedef-units", Text: true, Kw: "units", Module: func(s string) string {
+		return mod("typedef tdu { type string; units \"from-typedef\"; default \"tdd\"; }", "leaf tu { type tdu; "+s+" }", "", "")
+	},
+		Get: func(m *meta.Module) (string, bool) {
+			c := contC(m)
+			if c == nil {
+				return "", false
+			}
+			l, _ := c.DataDefinition("tu").(*meta.Leaf)
+			if l == nil {
+				return "", false
+			}
+			return l.Units(), true
+		}},
+	{Name: "leaf-default-over-typedef-default", Text: true, Kw: "default", Module: func(s string) string {
+		return mod("typedef tdu { type string; units \"from-typedef\"; default \"tdd\"; }", "leaf tu { type tdu; "+s+" }", "", "")
+	},
+		Get: func(m *meta.Module) (string, bool) {
+			c := contC(m)
+			if c == nil {
+				return "", false
+			}
+			l, _ := c.DataDefinition("tu").(*meta.Leaf)
+			if l == nil || !l.HasDefault() {
+				return "", false
+			}
+			return l.Default(), true
+		}},
 	{Name: "typedef-units", Text: true, Kw: "units", Module: func(s string) string { return mod("typedef td { type string; "+s+" }", "", "", "") },
 		Get: func(m *meta.Module) (string, bool) { t := m.Typedefs()["td"]; return t.Units(), t != nil }},
 	{Name: "feature-description", Text: true, Kw: "description", Module: func(s string) string { return mod("feature ft { "+s+" }", "", "", "") },
@@ -345,7 +374,7 @@ func execLex(c core.Case) []core.Rec {
 	res := core.Rec{"panic": false, "err": false, "msg": ""}
 	rec := core.Rec{"chk": "lex", "slot": slot.Name, "style": style, "ws": ws, "arg": argS, "written": textS, "res": res, "readback": "",
 		"rb_is_text": false, "rb_is_body": false,
-		"sig": core.Rec{"slot": slot.Name, "style": style, "ws": ws, "chars": charClasses(arg)}}
+		"sig": core.Rec{"slot": slot.Name, "style": style, "ws": ws, "chars": charClasses(arg), "concat": strings.Contains(style, "+")}}
 	func() {
 		defer func() {
 			if r := recover(); r != nil {
